@@ -1147,7 +1147,7 @@ func checkAfterClose(p *Prog, r *Report, waits []*waitFunc) {
 				// a select with default that has a die arm returning an error must lie on every path entry -> Send
 				res := c.FindPath(PathQuery{From: Point{c.Entry(), 0}, IsTarget: func(_ ast.Node, q Point) bool { return q == sp }, IsBarrier: func(n ast.Node, q Point) bool {
 					cc, ok := p.parents[n].(*ast.CommClause)
-					if !ok {
+					if !ok || cc.Comm != n {
 						return false
 					}
 					selS, ok := p.parents[p.parents[cc]].(*ast.SelectStmt)
@@ -1160,7 +1160,7 @@ func checkAfterClose(p *Prog, r *Report, waits []*waitFunc) {
 				// also after every wake-up
 				isDieTest := func(n ast.Node, q Point) bool {
 					cc, ok := p.parents[n].(*ast.CommClause)
-					if !ok {
+					if !ok || cc.Comm != n {
 						return false
 					}
 					selS, ok := p.parents[p.parents[cc]].(*ast.SelectStmt)
